@@ -106,7 +106,8 @@ def ref_meta(rng, box):
     if ws == "list":
         extra["url-list"] = rng.sample(metas.URLS, 2)
     elif ws == "string":
-        extra["url-list"] = rng.choice(metas.URLS)
+        extra["url-list"] = rng.choice(metas.URLS + ["http://seed.example/my files/disc 1/?a=1&b=2#x+y",
+                                                     "http://x.y/a b"] * 4)
     if rng.random() < 0.5:
         extra["x-unknown"] = {"k": [1, "two", {"z": -3}]}
     if rng.random() < 0.4:
